@@ -145,7 +145,8 @@ func (l *Leaf) Reset() {
 
 // Comp is a node of a core composition.
 type Comp struct {
-	Kind      string // leaf, tee, increase, hooks, lazy, with, sampler, nop
+	Kind      string // leaf, tee, increase, hooks, lazy, with, sampler, dropsampler, nop
+	Seen      map[[2]uint32]int // dropsampler: entries counted per (level, message bucket)
 	Enab      *Enab
 	Kids      []*Comp
 	Leaf      *Leaf
@@ -224,6 +225,10 @@ func (g *G) Composition(env *Env, depth int) *Comp {
 	case 7:
 		return &Comp{Kind: rng.Pick(r, []string{"lazy", "with"}), Fields: []zapcore.Field{zap.Int("ctx", r.Intn(100))}, Kids: []*Comp{g.Composition(env, depth-1)}}
 	default:
+		if r.P(1, 2) {
+			// a sampler that really drops: first 1, nothing thereafter, within a one-hour tick
+			return &Comp{Kind: "dropsampler", Seen: map[[2]uint32]int{}, Kids: []*Comp{g.Composition(env, depth-1)}}
+		}
 		return &Comp{Kind: "sampler", Kids: []*Comp{g.Composition(env, depth-1)}}
 	}
 }
@@ -290,12 +295,34 @@ func (c *Comp) Build(env *Env) zapcore.Core {
 		return c.Kids[0].Build(env).With(c.Fields)
 	case "sampler":
 		return zapcore.NewSamplerWithOptions(c.Kids[0].Build(env), time.Second, 1<<30, 0)
+	case "dropsampler":
+		return zapcore.NewSamplerWithOptions(c.Kids[0].Build(env), time.Hour, 1, 0)
 	}
 	panic("unknown comp " + c.Kind)
 }
 
-// Deliver is the model: which leaves receive an entry at level l and how often each hook fires.
+// Deliver is the model for a hypothetical entry: which leaves would receive an entry at level l
+// (first occurrence of its message) and how often each hook would fire. It changes no state.
 func (c *Comp) Deliver(l zapcore.Level, leaves map[int]bool, hooks map[int]int) bool {
+	return c.deliver(nil, l, leaves, hooks)
+}
+
+// DeliverCall is the model for an entry that is really logged with message msg: dropping
+// samplers count it.
+func (c *Comp) DeliverCall(l zapcore.Level, msg string, leaves map[int]bool, hooks map[int]int) bool {
+	return c.deliver(&msg, l, leaves, hooks)
+}
+
+func fnv32a(s string) uint32 {
+	h := uint32(2166136261)
+	for i := 0; i < len(s); i++ {
+		h ^= uint32(s[i])
+		h *= 16777619
+	}
+	return h
+}
+
+func (c *Comp) deliver(msg *string, l zapcore.Level, leaves map[int]bool, hooks map[int]int) bool {
 	switch c.Kind {
 	case "nop":
 		return false
@@ -308,27 +335,37 @@ func (c *Comp) Deliver(l zapcore.Level, leaves map[int]bool, hooks map[int]int) 
 	case "tee":
 		any := false
 		for _, k := range c.Kids {
-			if k.Deliver(l, leaves, hooks) {
+			if k.deliver(msg, l, leaves, hooks) {
 				any = true
 			}
 		}
 		return any
 	case "increase":
 		if c.Collapsed {
-			return c.Kids[0].Deliver(l, leaves, hooks)
+			return c.Kids[0].deliver(msg, l, leaves, hooks)
 		}
 		if !c.Enab.On(l) {
 			return false
 		}
-		return c.Kids[0].Deliver(l, leaves, hooks)
+		return c.Kids[0].deliver(msg, l, leaves, hooks)
 	case "hooks":
-		if c.Kids[0].Deliver(l, leaves, hooks) {
+		if c.Kids[0].deliver(msg, l, leaves, hooks) {
 			hooks[c.HookID]++
 			return true
 		}
 		return false
+	case "dropsampler":
+		// disabled levels are skipped before counting; levels outside debug..fatal bypass sampling
+		if msg != nil && l >= zapcore.DebugLevel && l <= zapcore.FatalLevel && c.Kids[0].EnabledModel(l) {
+			k := [2]uint32{uint32(int32(l)), fnv32a(*msg) % 4096}
+			c.Seen[k]++
+			if c.Seen[k] > 1 {
+				return false
+			}
+		}
+		return c.Kids[0].deliver(msg, l, leaves, hooks)
 	}
-	return c.Kids[0].Deliver(l, leaves, hooks)
+	return c.Kids[0].deliver(msg, l, leaves, hooks)
 }
 
 // EnabledModel reports whether any leaf would receive level l.
